@@ -516,6 +516,20 @@ def run(ctx):
                            f"`{ast.unparse(n_)[:70]}` takes its dtype from `{ast.unparse(getattr(dt_, 'value', dt_))[:30]}`, an array derived from what the caller supplied: integer-typed bounds (NumPy / JAX, "
                            "dtype=None) make it an integer dtype, and a log-Jacobian constant filled into it is truncated (log 20 + log 7 = 4.94 becomes 4)", disc=f"borrowed-dtype|{n_dt}")
     ctx.count("allocations_with_explicit_dtype", n_dt)
+    # a constant log-Jacobian term is broadcast to the batch by multiplying with xp.ones(n): the ones name the transform's dtype.  Under torch a 0-d float64
+    # value times a float32 ones(n) is float32 (0-d operands do not take part in type promotion), so the constant term of a float64 transform is rounded to 7 digits
+    n_ones = 0
+    for f_ in repo.all_functions():
+        if not f_.ident.startswith("aspire.transforms:") or f_.cls is None:
+            continue
+        for n_ in walk_no_nested(f_.node):
+            if isinstance(n_, ast.Call) and isinstance(n_.func, ast.Attribute) and n_.func.attr in ("ones", "full"):
+                n_ones += 1
+                has = any(k.arg == "dtype" for k in n_.keywords)
+                ctx.decide(has, "C04.alloc", f_.ident, loc_of(f_, n_), "the broadcasting ones() name the transform's dtype",
+                           f"`{ast.unparse(n_)[:60]}` takes the namespace's default width: under torch the product of the (0-d, float64) log-Jacobian constant with float32 ones is float32, "
+                           "so a float64 transform reports this term rounded to single precision", disc=f"ones|{n_ones}")
+    ctx.floor("broadcasting ones() in transforms", n_ones, 4)
     # ---- the flow used as a preconditioning map reports its log-Jacobian deterministically (no stochastic trace estimator), shared with C03
     from .c03 import exact_option_rule
     exact_option_rule(ctx, "C04.form")
@@ -875,11 +889,15 @@ MUTANTS += [
     M("flow matching defaults to the Hutchinson trace estimate", "src/aspire/flows/torch/flows.py", "kwargs.setdefault(\"hidden_features\", 4 * [100])", "kwargs.setdefault(\"hidden_features\", 4 * [100])\n        kwargs.setdefault(\"exact\", False)", "C04.form"),
 ]
 MUTANTS += [
-    M("constant log-Jacobian filled into an array of the bounds' dtype", "src/aspire/transforms.py", "log_j = self._scale_log_abs_det_jacobian * self.xp.ones(\n            y.shape[0], device=get_device(y)\n        )",
+    M("constant log-Jacobian filled into an array of the bounds' dtype", "src/aspire/transforms.py", "log_j = self._scale_log_abs_det_jacobian * self.xp.ones(\n            y.shape[0], device=get_device(y), dtype=self.dtype\n        )",
       "log_j = self.xp.full((y.shape[0],), self._scale_log_abs_det_jacobian, dtype=self._denom.dtype, device=get_device(y))", "C04.alloc"),
 ]
+MUTANTS += [
+    M("affine log-Jacobian broadcast with ones() of the default width", "src/aspire/transforms.py", "return y, self.log_abs_det_jacobian * self.xp.ones(\n            y.shape[0], device=get_device(y), dtype=self.dtype\n        )",
+      "return y, self.log_abs_det_jacobian * self.xp.ones(\n            y.shape[0], device=get_device(y)\n        )", "C04.alloc"),
+]
 NEUTRALS = [
-    M("constant log-Jacobian filled into an array of the transform's dtype", "src/aspire/transforms.py", "log_j = self._scale_log_abs_det_jacobian * self.xp.ones(\n            y.shape[0], device=get_device(y)\n        )",
+    M("constant log-Jacobian filled into an array of the transform's dtype", "src/aspire/transforms.py", "log_j = self._scale_log_abs_det_jacobian * self.xp.ones(\n            y.shape[0], device=get_device(y), dtype=self.dtype\n        )",
       "log_j = self.xp.full((y.shape[0],), self._scale_log_abs_det_jacobian, dtype=self.dtype, device=get_device(y))"),
     M("log-Jacobian built without in-place updates", "src/aspire/transforms.py", "x, log_j_affine = self._affine_transform.forward(x)\n            log_abs_det_jacobian += log_j_affine",
       "x, log_j_affine = self._affine_transform.forward(x)\n            log_abs_det_jacobian = log_abs_det_jacobian + log_j_affine"),
